@@ -654,3 +654,94 @@ func runNodeHB(c caseIn) *caseOut {
 	}
 	return out
 }
+
+// runNodeFull: the boundary "no free id": every slot of the range except those in Pre is held by some other live node
+// (its marker is in the store).  n allocator objects run the sequence Sched (op = 2*i + kind; kind 0 = AllocateNodeID when the
+// allocator holds nothing, kind 1 = the real Release()).  After EVERY step the set of markers in the store must be exactly
+// (slots of the other live nodes) + (slots held by our allocators): an allocation succeeds with the lowest free slot iff one
+// exists, and a failed allocation followed by Release makes no storage change (Model/IdGen.skip_noops).
+func runNodeFull(c caseIn) *caseOut {
+	out := &caseOut{PropOK: true, Sched: []int{}, Markers: []int{}, Threads: []thrOut{}}
+	under := memory.New(context.Background())
+	free := map[int]bool{}
+	for _, k := range c.Pre {
+		free[k] = true
+	}
+	expect := map[int]bool{} // slot -> marker expected
+	for k := node.NodeIDMin; k <= node.NodeIDMax; k++ {
+		if !free[k] {
+			expect[k] = true
+			_ = under.Set(fmt.Sprintf("%snode-%04d", node.NodeIDKeyPrefix, k), fmt.Sprintf("node-%04d", k), time.Hour)
+		}
+	}
+	n := c.N
+	if n < 1 {
+		n = 1
+	}
+	ctx, cancel := context.WithCancel(context.Background())
+	defer cancel()
+	als := make([]*node.NodeIDAllocator, n)
+	held := make([]int, n)
+	for i := range als {
+		als[i] = node.NewNodeIDAllocator(under)
+	}
+	fail := func(step int, f string, a ...any) *caseOut {
+		out.PropOK, out.PropMsg = false, fmt.Sprintf("step %d of %v (free slots %v): ", step, c.Sched, c.Pre)+fmt.Sprintf(f, a...)
+		return out
+	}
+	for step, op := range c.Sched {
+		i, kind := (op/2)%n, op%2
+		if kind == 0 {
+			if held[i] != 0 {
+				continue
+			}
+			want := 0
+			for k := node.NodeIDMin; k <= node.NodeIDMax; k++ {
+				if !expect[k] {
+					want = k
+					break
+				}
+			}
+			id, err := als[i].AllocateNodeID(ctx)
+			if want == 0 {
+				if err == nil || id != "" {
+					return fail(step, "allocator %d was handed %q although every slot is held by a live node", i, id)
+				}
+			} else {
+				if err != nil {
+					return fail(step, "allocator %d failed (%v) although slot %d is free", i, err, want)
+				}
+				if id != fmt.Sprintf("node-%04d", want) {
+					return fail(step, "allocator %d was handed %s, the lowest free slot is %d", i, id, want)
+				}
+				held[i], expect[want] = want, true
+			}
+			out.NodeIDs = append(out.NodeIDs, fmt.Sprintf("%d:%s", i, id))
+		} else {
+			if err := als[i].Release(); err != nil {
+				return fail(step, "Release of allocator %d failed: %v", i, err)
+			}
+			if held[i] != 0 {
+				delete(expect, held[i])
+				held[i] = 0
+				als[i] = node.NewNodeIDAllocator(under) // (a released allocator object is not reused: its stop channel is closed)
+			}
+		}
+		for k := node.NodeIDMin; k <= node.NodeIDMax; k++ {
+			ex, _ := under.Exists(fmt.Sprintf("%snode-%04d", node.NodeIDKeyPrefix, k))
+			if ex != expect[k] {
+				who := "another live node"
+				for j, h := range held {
+					if h == k {
+						who = fmt.Sprintf("allocator %d", j)
+					}
+				}
+				if ex {
+					return fail(step, "slot %d is marked although nobody holds it (a failed or released allocation left state behind)", k)
+				}
+				return fail(step, "the marker of slot %d, held by %s, is gone after %s of allocator %d: the slot will be handed to a second node", k, who, []string{"AllocateNodeID", "Release"}[kind], i)
+			}
+		}
+	}
+	return out
+}
